@@ -15,7 +15,10 @@ Decls == ndJsonDeserialize("decls.ndjson")
 
 Props == {"C01", "C02", "C03", "C04", "C06", "C07", "C08", "C09", "C10", "DRIFT"}
 
-Final(rec, argv) == Run(S0(Decls[rec.decl], [rec EXCEPT !.argv = argv], FTab))
+\* a scenario may start with a first ParseArgs on the same parser (prelude); the judged call is the second one
+Final(rec, argv) ==
+  LET s0 == S0(Decls[rec.decl], [rec EXCEPT !.argv = IF rec.hasPrelude THEN rec.prelude ELSE argv, !.completion = IF rec.hasPrelude THEN E ELSE rec.completion], FTab) IN
+  IF rec.hasPrelude THEN Run([ReuseState(Run(s0), argv) EXCEPT !.sc.completion = rec.completion]) ELSE Run(s0)
 
 UserN(f) == Len(f.d.opts)
 ValEq(kind, sv, ov) == IF kind = "map" THEN SeqToSet(sv) = SeqToSet(ov) /\ Len(sv) = Len(ov) ELSE sv = ov
@@ -63,7 +66,8 @@ J07(f, o) == Dom(f, o) =>
 
 \* --- C08: command selection and scoping
 J08(f, o) == Dom(f, o) =>
-                (/\ o.chain = f.chain
+                (/\ o.chain = ActiveChain(f, 1)            \* what the public Active pointers show (= f.chain unless a stale pointer survives)
+                 /\ o.chain = f.chain                      \* ... and that is the chain the command words of this vector select
                  /\ \A t \in {"ErrCommandRequired", "ErrUnknownCommand"} : (f.err.t = t) <=> (o.errType = t)
                  /\ f.err.t = "ErrUnknownCommand" => o.errWord = f.err.word
                  /\ SpecOk(f) => ValuesEq(f, o))
@@ -101,7 +105,7 @@ J02(rec, f, o) ==
 \* everything observable agrees (fidelity of the model; never a verdict)
 FullEq(f, o) ==
   Dom(f, o) => (/\ f.err.t = ObsErrT(o)
-                /\ o.chain = f.chain
+                /\ o.chain = ActiveChain(f, 1)
                 /\ o.events = f.events
                 /\ f.err.t \in {"ErrMarshal", "ErrExpectedArgument", "ErrNoArgumentForBool", "ErrInvalidChoice"} => o.errOpt = f.err.opt
                 /\ SpecOk(f) => (ValuesEq(f, o) /\ PosEq(f, o) /\ o.retargs = f.retargs
